@@ -42,9 +42,15 @@ import (
 //	S  SELECT * FROM t
 //	X  INSERT INTO t ... addressed to main (control)
 //
-// Each sequence is run in every mode {all requests through Store.Query, all
-// through Store.Request, alternating} at each of NONE, WEAK, STRONG,
-// LINEARIZABLE, AUTO (alternating: NONE only).
+// Each sequence is run in every mode {one request per symbol, all through
+// Store.Query | all through Store.Request | alternating; "batch": the whole
+// sequence as the statements array of ONE Store.Query / ONE Store.Request
+// request - a request's statements run one after the other on one connection,
+// whatever the size of the pool} at each of NONE, WEAK, STRONG, LINEARIZABLE,
+// AUTO (alternating: NONE only). Quick tier: the full product of length 1..3 at
+// NONE for the four non-alternating modes; elsewhere the product of length 1..2
+// plus every chain [pragma, attach, alias write] / [attach, pragma, alias write]
+// for every spelling. Thorough: the full product everywhere.
 //
 // Oracle (unchanged): the node's database - schema, every row of every table,
 // user_version, read through an INDEPENDENT read-only SQLite connection to the
@@ -187,7 +193,7 @@ type c17qReplay struct {
 func TestVerif_C17_seq(t *testing.T) {
 	r := kit.Start(t, "C17", "seq")
 	defer r.Finish()
-	r.Rule("every sequence of 1..3 requests over the symbol alphabet {query_only-off spellings, ATTACH own file/scratch file/:memory: AS x, INSERT/UPDATE/DELETE/CREATE TABLE/PRAGMA user_version through x., DETACH, TEMP table create+insert, SELECT, INSERT into main} x mode {Store.Query, Store.Request, alternating} x level, on a real single-node Store with ONE pooled read-only connection; node database (schema, all rows, user_version) read through an independent connection before and after every request; plus every write text sent while the one read-only connection is held by a stalled read; distinct = (endpoint, level, symbol class, per-statement outcome, changed)")
+	r.Rule("every sequence of 1..3 requests over the symbol alphabet {query_only-off spellings, ATTACH own file/scratch file/:memory: AS x, INSERT/UPDATE/DELETE/CREATE TABLE/PRAGMA user_version through x., DETACH, TEMP table create+insert, SELECT, INSERT into main} x mode {one request per symbol through Store.Query / Store.Request / alternating, or the whole sequence as the statements of ONE request} x level, on a real single-node Store with ONE pooled read-only connection; node database (schema, all rows, user_version) read through an independent connection before and after every request; plus every write text sent while the one read-only connection is held by a stalled read; distinct = (endpoint, level, symbol class, per-statement outcome, changed)")
 	r.Assume("Store.MaxReadOnlyConns=1 (-db-max-ro-conns=1) makes the pooled connection a request meets deterministic; with the default of 256 the same state is reached on whichever pooled connection a request happens to get")
 	r.Assume("snapshotting is disabled on the harness Store (threshold raised): no checkpoint runs while the independent connection reads")
 	r.Note("writes that land in the scratch file, in ':memory:' or in TEMP tables are connection state, not node database content: allowed")
@@ -681,12 +687,6 @@ func (w *c17qWorker) runSequence(alpha []c17qSym, sq []int, si int) {
 				break
 			}
 			stmts = sqls
-			sym = alpha[sq[len(sq)-1]]
-			for _, b := range sq {
-				if c := alpha[b].class; c == "alias-write" || c == "direct-write" {
-					sym = alpha[b]
-				}
-			}
 		}
 		w.r.Eval(1)
 		liBefore := w.s.raft.LastIndex()
@@ -699,6 +699,17 @@ func (w *c17qWorker) runSequence(alpha []c17qSym, sq []int, si int) {
 		}
 		changed, after := w.changed()
 		if w.m.batch {
+			// the statement named in a violation key: the last write of the sequence that was
+			// answered without an error (else the last statement)
+			sym = alpha[sq[len(sq)-1]]
+			parts := strings.Split(outcome, ";")
+			for j, b := range sq {
+				if c := alpha[b].class; (c == "alias-write" || c == "direct-write") && j < len(parts) && parts[j] == "rows" {
+					sym = alpha[b]
+				}
+			}
+		}
+		if w.m.batch {
 			w.r.Distinct(fmt.Sprintf("%s-batch|%s|%d statements|read=%v|changed=%v", ep, w.m.lvl, len(stmts), treatedAsRead, changed))
 		} else {
 			w.r.Distinct(fmt.Sprintf("%s|%s|%s:%s|%s|read=%v|changed=%v", ep, w.m.lvl, sym.class, sym.kind, outcome, treatedAsRead, changed))
@@ -706,9 +717,12 @@ func (w *c17qWorker) runSequence(alpha []c17qSym, sq []int, si int) {
 		if changed {
 			if treatedAsRead {
 				qo, att, _ := w.connState()
-				attS := "no-attach"
-				if att != "" {
-					attS = "attach-" + att
+				attS := "main" // statement addressed to the main database: what x is attached to is irrelevant
+				if sym.class == "alias-write" {
+					attS = "no-attach"
+					if att != "" {
+						attS = "attach-" + att
+					}
 				}
 				qoS := "query_only-on"
 				if qo == 0 {
